@@ -11,7 +11,9 @@ Three mechanisms, all static (nothing of pyyeti is imported or run; the function
   * a selection that does not come from the search (identity, arange, slice) must be established by a test that compares old and new times
     element by element: lengths and turning-point counts do not establish it (typestate-style "not established");
   * every further definition of the search functions (the numba twins) is executed by the engine on the same worlds (constant ranges
-    unrolled, break / for-else followed) and must select the same samples.
+    unrolled, break / for-else followed, while loops run while their test is decided, helpers of the module followed) and must select the
+    same samples - exact coincidences of a new time with an old one included (F18).  World restriction kept: the first query lies before the
+    last old time (strictly, for the previous-sample search); the loop variants answer "sample 0 for every query" otherwise (see the pass-3 report).
 """
 from __future__ import annotations
 
